@@ -796,12 +796,12 @@ SPEC = Property(
           "type byte. Non-trivial: an advertisement while a waiter waits, malformed content, or a loaded pairing."),
     layers=[
         Layer("mdns-schedules-fixed", run_mdns_schedule, enumerate=enum_schedules, exhaustive=True, space="3 pairing states x 3 controllers x 14 schedules incl. the deadline race in both orders and goodbye packets inside / outside the resolve delay", min_nontrivial=50),
-        Layer("mdns-schedules", run_mdns_schedule, strategy=lambda: schedules(["ip", "coap", "agg"]), n={"quick": 4000, "thorough": 60000}, min_nontrivial=200),
+        Layer("mdns-schedules", run_mdns_schedule, strategy=lambda: schedules(["ip", "coap", "agg"]), n={"quick": 6000, "thorough": 60000}, min_nontrivial=200),
         Layer("ble-schedules-fixed", run_ble_schedule, enumerate=enum_ble_schedules, exhaustive=True, space="3 pairing states x 2 controllers x 8 schedules", min_nontrivial=30),
-        Layer("ble-schedules", run_ble_schedule, strategy=lambda: schedules(["ble", "agg-ble"], adv_lead=0.0), n={"quick": 4000, "thorough": 60000}, min_nontrivial=200),
-        Layer("mdns-contents", run_mdns_parse, strategy=mdns_records, n={"quick": 4000, "thorough": 60000}, min_nontrivial=200),
+        Layer("ble-schedules", run_ble_schedule, strategy=lambda: schedules(["ble", "agg-ble"], adv_lead=0.0), n={"quick": 6000, "thorough": 60000}, min_nontrivial=200),
+        Layer("mdns-contents", run_mdns_parse, strategy=mdns_records, n={"quick": 6000, "thorough": 60000}, min_nontrivial=200),
         Layer("ble-contents-truncations", run_ble_parse, enumerate=enum_ble_parse, exhaustive=True, space="every prefix of a regular (19 bytes) and an encrypted (24 bytes) advertisement x 5 pairing states (none, cached, uncached, cached key without / with zero state number); wrong company / type / category", min_nontrivial=100),
-        Layer("ble-contents", run_ble_parse, strategy=ble_mfr, n={"quick": 6000, "thorough": 80000}, min_nontrivial=300),
+        Layer("ble-contents", run_ble_parse, strategy=ble_mfr, n={"quick": 9000, "thorough": 80000}, min_nontrivial=300),
         Layer("ble-contents-atheris", run_fuzz, enumerate=lambda tier: iter([{"corpus": "empty", "runs": 400000}, {"corpus": "seeded", "runs": 400000}]), tiers=("thorough",),
               space="two libFuzzer campaigns of 400k executions on BleController._device_detected (first byte selects the pairing state), oracle inside the target"),
     ],
